@@ -250,10 +250,19 @@ func (h *httpServer) checkIPWhitelist(addr string) bool {
 	if ip.IsLoopback() {
 		return true
 	}
-	whitelist := h.cfg.GetModuleConfig().RPC.Whitelist
-	// "*" means allow all IPs, consistent with rpc.InitIPWhitelist
-	if len(whitelist) == 0 || (len(whitelist) == 1 && whitelist[0] == "*") {
+	// the IP whitelist may be configured under either key, consistent with rpc.InitIPWhitelist:
+	// "whitelist" takes precedence, the legacy spelling "whitlist" is used when it is empty,
+	// and a lone "*" under either key means allow all IPs
+	rpcCfg := h.cfg.GetModuleConfig().RPC
+	whitelist := rpcCfg.Whitelist
+	if len(whitelist) == 0 && len(rpcCfg.Whitlist) == 0 {
 		return true
+	}
+	if (len(whitelist) == 1 && whitelist[0] == "*") || (len(rpcCfg.Whitlist) == 1 && rpcCfg.Whitlist[0] == "*") {
+		return true
+	}
+	if len(whitelist) == 0 {
+		whitelist = rpcCfg.Whitlist
 	}
 	ipv4 := ip.To4()
 	if ipv4 != nil {
